@@ -33,6 +33,7 @@ type c13Slice struct {
 type c13Query struct {
 	Start  int64      `json:"start"`
 	End    int64      `json:"end"`
+	Dur    int64      `json:"dur"` // RangeQueryTimes.Dur(): end - start for an absolute window, less for a now-based one
 	Slices []c13Slice `json:"slices"`
 	Miss   []int      `json:"miss"`  // slices (1-based) the model expects to be requested (not cached)
 	Order  []int      `json:"order"` // arrival order of the slice results
@@ -51,20 +52,22 @@ type c13Range struct {
 }
 
 // absolute window for RangeQuery (same shape as the absoluteRange of pint's own range_test.go)
+// Dur() is given separately: pint's NewRelativeRange reads the clock once for Start() and once for End(), so End()
+// may be later than Start()+Dur(); the cases prescribe that skew instead of leaving it to the wall clock.
 type c13Times struct {
 	start, end time.Time
-	step       time.Duration
+	step, dur  time.Duration
 	id         string
 }
 
 func (a c13Times) Start() time.Time    { return a.start }
 func (a c13Times) End() time.Time      { return a.end }
-func (a c13Times) Dur() time.Duration  { return a.end.Sub(a.start) }
+func (a c13Times) Dur() time.Duration  { return a.dur }
 func (a c13Times) Step() time.Duration { return a.step }
 func (a c13Times) String() string      { return a.id }
 
 const (
-	c13T0        = int64(1767225600) // 2026-01-01T00:00:00Z
+	c13T0        = int64(1767225600)  // 2026-01-01T00:00:00Z
 	c13ZeroToUnx = int64(62135596800) // seconds from Go's zero Time to the Unix epoch (Time.Round works from there)
 	c13Conc      = 16
 )
@@ -82,6 +85,9 @@ func c13Base(size int64) int64 {
 }
 
 var c13Reg = prometheus.NewRegistry()
+
+// c13UseGate: hook H3 is compiled in (build tag h3) - arrival orders are enforced exactly at the client's "got" gate
+var c13UseGate bool
 
 func c13Running(name string) float64 {
 	mfs, err := c13Reg.Gather()
@@ -144,7 +150,18 @@ func init() {
 				s.fg.Close(c13Reg)
 			}
 		}()
-		out.Write(map[string]any{"ev": "Probe", "mirror": c13ProbeMirror()})
+		c13UseGate = c13GateAvailable() && os.Getenv("C13_NO_GATE") == ""
+		if c13UseGate {
+			c13InstallTracer()
+		}
+		out.Write(map[string]any{"ev": "Probe", "mirror": c13ProbeMirror(), "gate": c13UseGate})
+		if len(in) > 0 {
+			env, err := c13EnvProbe(in)
+			if err != nil {
+				return err
+			}
+			out.Write(env)
+		}
 		var failed atomic.Value
 		recs := make([][]any, len(in)) // per case, written in case order afterwards (deterministic trace)
 		parallel(len(in), workers, func(i int) {
@@ -182,6 +199,90 @@ func c13ProbeMirror() bool {
 	return ok1 && ok2
 }
 
+// c13EnvProbe records what the real time package and the real PromQL engine do where the model assumes something
+// (RangeSlice.tla, E3 / E4): Time.Round of base+offset for the slice sizes and offsets of the cases, (2h).Round(step)
+// for their steps, and the evaluation timestamps of engine range queries whose start is not a multiple of the step.
+func c13EnvProbe(in []json.RawMessage) (map[string]any, error) {
+	type rnd struct {
+		T int64 `json:"t"`
+		D int64 `json:"d"`
+		R int64 `json:"r"`
+	}
+	type dur struct {
+		St int64 `json:"st"`
+		R  int64 `json:"r"`
+	}
+	type grid struct {
+		S  int64   `json:"s"`
+		E  int64   `json:"e"`
+		St int64   `json:"st"`
+		Ts []int64 `json:"ts"`
+	}
+	rounds, durs, grids := []rnd{}, []dur{}, []grid{}
+	seenR, seenD := map[[2]int64]bool{}, map[int64]bool{}
+	for _, raw := range in {
+		var c c13Case
+		if err := json.Unmarshal(raw, &c); err != nil {
+			return nil, err
+		}
+		if !seenD[c.Step] {
+			seenD[c.Step] = true
+			durs = append(durs, dur{c.Step, int64((2 * time.Hour).Round(time.Duration(c.Step) * time.Second).Seconds())})
+		}
+		if c.Size <= 0 || len(rounds) >= 4000 {
+			continue
+		}
+		base := c13Base(c.Size)
+		for _, q := range c.Queries {
+			k := [2]int64{q.Start, c.Size}
+			if seenR[k] {
+				continue
+			}
+			seenR[k] = true
+			r := time.Unix(base+q.Start, 0).Round(time.Duration(c.Size) * time.Second)
+			rounds = append(rounds, rnd{q.Start, c.Size, r.Unix() - base})
+		}
+	}
+	be := promfake.NewEngineBackend(promfake.NewDB())
+	for _, g := range [][3]int64{{7, 100, 30}, {61, 7261, 420}, {3599, 10801, 3600}} {
+		t0 := time.Unix(c13T0, 0)
+		m, err := be.Range(context.Background(), "vector(1)", t0.Add(time.Duration(g[0])*time.Second),
+			t0.Add(time.Duration(g[1])*time.Second), time.Duration(g[2])*time.Second)
+		if err != nil {
+			return nil, err
+		}
+		ts := []int64{}
+		for _, v := range m {
+			for _, x := range v {
+				ts = append(ts, x/1000-c13T0)
+			}
+		}
+		grids = append(grids, grid{g[0], g[1], g[2], ts})
+	}
+	return map[string]any{"ev": "EnvProbe", "rounds": rounds, "durs": durs, "grids": grids}, nil
+}
+
+func init() {
+	// probe-c13-bigstep: does RangeQuery return for a step above 4h? Without the slice-size guard it never does and
+	// eats memory, so the driver runs this sub-command in a child process under a memory limit and a timeout.
+	register("probe-c13-bigstep", func(_ []json.RawMessage, out *Out, _ []string) error {
+		srv, err := promfake.NewServer()
+		if err != nil {
+			return err
+		}
+		defer srv.Close()
+		srv.Tenant("p").Set(promfake.NewPresence(c13T0*1000, 18000*1000, nil, false))
+		prom := promapi.NewPrometheus("p", srv.URL("p"), "", nil, 10*time.Second, 4, 1000, nil)
+		prom.StartWorkers()
+		defer prom.Close()
+		t0 := time.Unix(c13T0, 0)
+		_, err = prom.RangeQuery(context.Background(), "m", c13Times{start: t0, end: t0.Add(11 * time.Hour), dur: 11 * time.Hour,
+			step: 5 * time.Hour, id: "bigstep"})
+		out.Write(map[string]any{"ev": "BigStep", "returned": true, "err": fmt.Sprint(err)})
+		return nil
+	})
+}
+
 func c13Spin(d time.Duration) {
 	for t := time.Now(); time.Since(t) < d; {
 		runtime.Gosched()
@@ -202,8 +303,9 @@ func c13Run(id int, c *c13Case, name string, tenant *promfake.Tenant, fg *promap
 	tenant.Set(pm)
 	// the cache lives as long as the client: a fresh expression per case = a fresh cache for the session
 	expr := fmt.Sprintf("m_%d_%s", id, os.Getenv("VERIF_SEED"))
+	ck2start := map[string]int64{} // cache key -> slice start, learned from the requests of this session
 	for qi := range c.Queries {
-		if !c13Query1(id, qi+1, c, &c.Queries[qi], base, expr, name, pm, fg, emit) {
+		if !c13Query1(id, qi+1, c, &c.Queries[qi], base, expr, name, pm, fg, ck2start, emit) {
 			return
 		}
 	}
@@ -214,23 +316,176 @@ type c13Res struct {
 	err error
 }
 
+// model slice (1-based) that starts at startMs; 0 = none
+func c13SliceIndex(q *c13Query, base, startMs int64) int {
+	for i, sl := range q.Slices {
+		if (base+sl.S)*1000 == startMs {
+			return i + 1
+		}
+	}
+	return 0
+}
+
 func c13Query1(id, qn int, c *c13Case, q *c13Query, base int64, expr, name string, pm *promfake.Presence,
-	fg *promapi.FailoverGroup, emit func(any),
+	fg *promapi.FailoverGroup, ck2start map[string]int64, emit func(any),
 ) bool {
 	seen := len(pm.Requests())
+	if q.Dur == 0 {
+		q.Dur = q.End - q.Start
+	}
+	params := c13Times{start: time.Unix(base+q.Start, 0), end: time.Unix(base+q.End, 0), dur: time.Duration(q.Dur) * time.Second,
+		step: time.Duration(c.Step) * time.Second, id: fmt.Sprintf("case%d/%d", id, qn)}
+	gated := c13UseGate
+	var released []int // model slice indices (0 = unknown) in the order their results were let through
+	var rr c13Res
+	hang := false
+	if gated {
+		rr, released, hang = c13RunGated(q, base, expr, params, pm, fg, ck2start)
+	} else {
+		rr, released, hang = c13RunHeld(q, base, expr, name, params, pm, fg, seen)
+	}
+	if hang {
+		emit(map[string]any{"ev": "Hang", "id": id})
+		return false
+	}
+	// The records are written only now, from everything the server saw for this query: a request that turned
+	// up late is part of the recorded slices, so the verdict never works from an incomplete picture.
+	all := pm.Requests()[seen:]
+	sorted := promfake.SortedByStart(all)
+	obs := make([]c13Slice, len(sorted))
+	exact := true
+	for i, r := range sorted {
+		obs[i] = c13Slice{S: r.StartMs/1000 - base, E: r.EndMs/1000 - base}
+		if r.StartMs%1000 != 0 || r.EndMs%1000 != 0 || r.StepMs != c.Step*1000 {
+			exact = false
+		}
+	}
+	emit(map[string]any{"ev": "Query", "id": id, "q": qn, "step": c.Step, "start": q.Start, "end": q.End, "dur": q.Dur,
+		"unit": c.Unit, "pres": c.Pres, "slices": obs, "exact": exact, "gated": gated})
+	for _, k := range released {
+		emit(map[string]any{"ev": "Respond", "id": id, "k": k})
+	}
+	ranges := []c13Range{}
+	errs := ""
+	if rr.err != nil {
+		errs = rr.err.Error()
+	} else {
+		for _, r := range rr.r.Series.Ranges {
+			fp := 0
+			if v := r.Labels.Get("s"); len(v) > 1 {
+				fp, _ = strconv.Atoi(v[1:])
+			}
+			ranges = append(ranges, c13Range{Fp: fp, S: r.Start.Unix() - base, E: r.End.Unix() - base})
+		}
+	}
+	emit(map[string]any{"ev": "Result", "id": id, "q": qn, "ranges": ranges, "err": errs})
+	return true
+}
+
+// c13RunGated: exact arrival order through hook H3 (see exec_c13_gate.go).
+func c13RunGated(q *c13Query, base int64, expr string, params c13Times, pm *promfake.Presence, fg *promapi.FailoverGroup,
+	ck2start map[string]int64,
+) (rr c13Res, released []int, hang bool) {
+	pm.SetHold(false)
+	lockKey := fmt.Sprintf("%s/%s/%s", promapi.APIPathQueryRange, expr, params.String())
+	g := c13NewGate(lockKey)
+	defer g.close(lockKey)
+	done := make(chan c13Res, 1)
+	fin := make(chan struct{})
+	go func() {
+		r, err := fg.RangeQuery(context.Background(), expr, params)
+		done <- c13Res{r, err}
+		close(fin)
+	}()
+	g.park(len(q.Slices), fin)
+	// cache misses wait at "start": let them through one at a time; the one new request identifies the slice
+	for _, j := range g.snapshot() {
+		g.mu.Lock()
+		isMiss := j.atStart && !j.ended
+		g.mu.Unlock()
+		if !isMiss {
+			continue
+		}
+		before := len(pm.Requests())
+		g.openStart(j)
+		g.waitFor(5*time.Second, func() bool { return j.atGot })
+		if nr := pm.Requests()[before:]; len(nr) == 1 {
+			j.startMs, j.known = nr[0].StartMs, true
+			if j.ck != "" {
+				ck2start[j.ck] = j.startMs
+			}
+		}
+	}
+	g.waitFor(3*time.Second, func() bool {
+		for _, j := range g.jobs {
+			if !j.atGot {
+				return false
+			}
+		}
+		return true
+	})
+	jobs := g.snapshot()
+	for _, j := range jobs { // cache hits: the key was tied to a slice start by an earlier query of the session
+		if !j.known && !j.started {
+			if st, ok := ck2start[j.ck]; ok && j.ck != "" {
+				j.startMs, j.known = st, true
+			}
+		}
+	}
+	// open the "got" gates in the prescribed order, then whatever is left
+	var order []*c13Job
+	used := map[*c13Job]bool{}
+	for _, k := range q.Order {
+		if k < 1 || k > len(q.Slices) {
+			continue
+		}
+		want := (base + q.Slices[k-1].S) * 1000
+		for _, j := range jobs {
+			if !used[j] && j.known && j.startMs == want {
+				used[j] = true
+				order = append(order, j)
+				break
+			}
+		}
+	}
+	for _, j := range jobs {
+		if !used[j] {
+			order = append(order, j)
+		}
+	}
+	for _, j := range order {
+		g.openGot(j)
+		// between the tracer's return and `results <- result` the slice goroutine does nothing else
+		c13Spin(40 * time.Microsecond)
+		k := 0
+		if j.known {
+			k = c13SliceIndex(q, base, j.startMs)
+		}
+		released = append(released, k)
+	}
+	select {
+	case rr = <-done:
+	case <-time.After(20 * time.Second):
+		return rr, released, true
+	}
+	return rr, released, false
+}
+
+// c13RunHeld: best-effort arrival order without the hook - the fake holds every response and releases them in
+// the prescribed order; cache hits cannot be held.
+func c13RunHeld(q *c13Query, base int64, expr, name string, params c13Times, pm *promfake.Presence, fg *promapi.FailoverGroup,
+	seen int,
+) (rr c13Res, released []int, hang bool) {
 	expect := len(q.Miss)
 	if expect > c13Conc {
 		expect = c13Conc
 	}
 	pm.SetHold(expect > 0) // nothing expected at the server: nothing to order, answer stragglers at once
 	done := make(chan c13Res, 1)
-	params := c13Times{start: time.Unix(base+q.Start, 0), end: time.Unix(base+q.End, 0),
-		step: time.Duration(c.Step) * time.Second, id: fmt.Sprintf("case%d/%d", id, qn)}
 	go func() {
 		r, err := fg.RangeQuery(context.Background(), expr, params)
 		done <- c13Res{r, err}
 	}()
-
 	var reqs []*promfake.RangeReq
 	if expect > 0 {
 		reqs = pm.WaitRequests(seen+expect, 5*time.Second)[seen:]
@@ -241,11 +496,6 @@ func c13Query1(id, qn int, c *c13Case, q *c13Query, base int64, expr, name strin
 		}
 	}
 	sorted := promfake.SortedByStart(reqs)
-	idx := map[*promfake.RangeReq]int{}
-	for i, r := range sorted {
-		idx[r] = i + 1
-	}
-	// release in the prescribed order (matching model slice k to the request with that start), then the rest
 	var order []*promfake.RangeReq
 	used := map[*promfake.RangeReq]bool{}
 	for _, k := range q.Order {
@@ -266,7 +516,6 @@ func c13Query1(id, qn int, c *c13Case, q *c13Query, base int64, expr, name strin
 			order = append(order, r)
 		}
 	}
-	var released []*promfake.RangeReq
 	remaining := len(order)
 	for _, r := range order {
 		pm.Release(r)
@@ -278,52 +527,13 @@ func c13Query1(id, qn int, c *c13Case, q *c13Query, base int64, expr, name strin
 			runtime.Gosched()
 		}
 		c13Spin(40 * time.Microsecond) // time.Sleep has ~1 ms granularity here
-		released = append(released, r)
+		released = append(released, c13SliceIndex(q, base, r.StartMs))
 	}
 	pm.SetHold(false)
-	var rr c13Res
 	select {
 	case rr = <-done:
 	case <-time.After(20 * time.Second):
-		emit(map[string]any{"ev": "Hang", "id": id})
-		return false
+		return rr, released, true
 	}
-	// The records are written only now, from everything the server saw for this query: a request that turned
-	// up late (after the wait above gave up) is part of the recorded slices, so the verdict never works from
-	// an incomplete picture; it just has no Respond record (binding only).
-	all := pm.Requests()[seen:]
-	late := len(all) - len(reqs)
-	sorted = promfake.SortedByStart(all)
-	idx = map[*promfake.RangeReq]int{}
-	for i, r := range sorted {
-		idx[r] = i + 1
-	}
-	obs := make([]c13Slice, len(sorted))
-	exact := true
-	for i, r := range sorted {
-		obs[i] = c13Slice{S: r.StartMs/1000 - base, E: r.EndMs/1000 - base}
-		if r.StartMs%1000 != 0 || r.EndMs%1000 != 0 || r.StepMs != c.Step*1000 {
-			exact = false
-		}
-	}
-	emit(map[string]any{"ev": "Query", "id": id, "q": qn, "step": c.Step, "start": q.Start, "end": q.End, "unit": c.Unit,
-		"pres": c.Pres, "slices": obs, "exact": exact})
-	for _, r := range released {
-		emit(map[string]any{"ev": "Respond", "id": id, "k": idx[r]})
-	}
-	ranges := []c13Range{}
-	errs := ""
-	if rr.err != nil {
-		errs = rr.err.Error()
-	} else {
-		for _, r := range rr.r.Series.Ranges {
-			fp := 0
-			if v := r.Labels.Get("s"); len(v) > 1 {
-				fp, _ = strconv.Atoi(v[1:])
-			}
-			ranges = append(ranges, c13Range{Fp: fp, S: r.Start.Unix() - base, E: r.End.Unix() - base})
-		}
-	}
-	emit(map[string]any{"ev": "Result", "id": id, "q": qn, "ranges": ranges, "err": errs, "late": late})
-	return true
+	return rr, released, false
 }
